@@ -18,6 +18,7 @@ type Contract struct {
 	Header   string
 	Clauses  []Clause
 	LoopVars map[int]string // loop ordinal -> "name type, name type"
+	LoopAlias map[string]string // "k.alias" -> source variable name
 	Line     int
 	Trusted  bool
 	NoInline bool
@@ -48,10 +49,11 @@ type SpecFile struct {
 	Lemmas    []*Lemma
 	Relies    map[string]string // "Type.field" -> relation
 	Guards    map[string]string // "Type.field" -> "Type.lock"
+	Deterministic []string      // "Iface.Method" callbacks treated as deterministic functions
 	Lines     []string
 }
 
-var clauseRe = regexp.MustCompile(`^(requires|ensures|canary|case|let|assigns|trusted|noinline|loop\s+\d+\s+(invariant|vars))\b\s*(.*)$`)
+var clauseRe = regexp.MustCompile(`^(requires|ensures|canary|case|oldlet|let|assigns|trusted|noinline|loop\s+\d+\s+(invariant|vars))\b\s*(.*)$`)
 var nameTagRe = regexp.MustCompile(`^([A-Za-z_][A-Za-z0-9_]*)?\s*(\[[A-Za-z0-9, ]*\])?\s*:\s*(.*)$`)
 
 // ParseSpecFile reads the //@ blocks of a contracts file.
@@ -79,6 +81,8 @@ func ParseSpecFile(path string) (*SpecFile, error) {
 		case t == "" || strings.HasPrefix(t, "#"):
 		case strings.HasPrefix(t, "import "):
 			sf.Imports = append(sf.Imports, strings.TrimSpace(strings.TrimPrefix(t, "import ")))
+		case strings.HasPrefix(t, "deterministic "):
+			sf.Deterministic = append(sf.Deterministic, strings.Fields(strings.TrimPrefix(t, "deterministic "))...)
 		case strings.HasPrefix(t, "rely "):
 			f := strings.Fields(t)
 			if len(f) != 3 {
@@ -146,15 +150,31 @@ func ParseSpecFile(path string) (*SpecFile, error) {
 					c.Trusted = true
 				case "noinline":
 					c.NoInline = true
-				case "let":
-					c.Clauses = append(c.Clauses, Clause{Kind: "let", Expr: rest, Line: lineNos[i]})
+				case "let", "oldlet":
+					// let: bound in the current (post/loop) state; oldlet: bound in the pre-state
+					c.Clauses = append(c.Clauses, Clause{Kind: kw[0], Expr: rest, Line: lineNos[i]})
 				case "assigns":
 					c.Clauses = append(c.Clauses, Clause{Kind: "assigns", Expr: rest, Line: lineNos[i]})
 				case "loop":
 					var k int
 					fmt.Sscanf(kw[1], "%d", &k)
 					if kw[2] == "vars" {
-						c.LoopVars[k] = rest
+						// "alias=name type": the source variable `name` is called `alias` in the invariant
+						var parts []string
+						for _, p := range splitTop(rest, ',') {
+							p = strings.TrimSpace(p)
+							f := strings.Fields(p)
+							if len(f) >= 2 && strings.Contains(f[0], "=") {
+								an := strings.SplitN(f[0], "=", 2)
+								if c.LoopAlias == nil {
+									c.LoopAlias = map[string]string{}
+								}
+								c.LoopAlias[fmt.Sprintf("%d.%s", k, an[0])] = an[1]
+								p = an[0] + " " + strings.Join(f[1:], " ")
+							}
+							parts = append(parts, p)
+						}
+						c.LoopVars[k] = strings.Join(parts, ", ")
 						continue
 					}
 					nm := nameTagRe.FindStringSubmatch(rest)
@@ -306,7 +326,9 @@ func __invariant(name string, tags string, c bool) {}
 func __assert(name string, tags string, c bool)   {}
 func __assume(c bool)                            {}
 func __case(name string, c bool)                 {}
-func __old[T any](x T) T                         { return x }
+func __oldMark() bool                            { return true }
+func __oldEnd()                                  {}
+func __old[T any](_ bool, x T) T                 { return x }
 func __ite[T any](c bool, a, b T) T              { if c { return a }; return b }
 func __forall[A any](f func(A) bool) bool        { return true }
 func __forall2[A, B any](f func(A, B) bool) bool { return true }
@@ -331,6 +353,8 @@ func __sameArray[T any](a, b []T) bool { return true }
 func __nilSlice[T any](a []T) bool { return true }
 func __disjoint[T any](a, b []T) bool { return true }
 func __sameSlice[T any](a, b []T) bool { return true }
+func __allocated[T any](p *T) bool { return true }
+func __arrayAllocated[T any](l []T) bool { return true }
 func __allocatedElemsKept[T any](witness []T) bool { return true }
 func __elemsUnchangedExcept[T any](l []T) bool { return true }
 func __elemsUnchangedExcept2[T any](a, b []T) bool { return true }
@@ -374,16 +398,8 @@ func (sf *SpecFile) Generate() (string, error) {
 		for _, cl := range c.Clauses {
 			e := rewriteSpecText(cl.Expr)
 			switch cl.Kind {
-			case "let":
-				fmt.Fprintf(&b, "\t%s\n", e)
-				// silence unused
-				lhs := strings.SplitN(cl.Expr, ":=", 2)[0]
-				for _, v := range strings.Split(lhs, ",") {
-					v = strings.TrimSpace(v)
-					if v != "_" && v != "" {
-						fmt.Fprintf(&b, "\t_ = %s\n", v)
-					}
-				}
+			case "let", "oldlet":
+				writeLet(&b, cl, e)
 			case "requires":
 				fmt.Fprintf(&b, "\t__requires(%q, %q, %s)\n", cl.Name, cl.Tags, e)
 			case "ensures":
@@ -412,15 +428,8 @@ func (sf *SpecFile) Generate() (string, error) {
 				}
 			}
 			for _, cl := range c.Clauses {
-				if cl.Kind == "let" {
-					fmt.Fprintf(&b, "\t%s\n", rewriteSpecText(cl.Expr))
-					lhs := strings.SplitN(cl.Expr, ":=", 2)[0]
-					for _, v := range strings.Split(lhs, ",") {
-						v = strings.TrimSpace(v)
-						if v != "_" && v != "" {
-							fmt.Fprintf(&b, "\t_ = %s\n", v)
-						}
-					}
+				if cl.Kind == "let" || cl.Kind == "oldlet" {
+					writeLet(&b, cl, rewriteSpecText(cl.Expr))
 				}
 			}
 			for _, cl := range cls {
@@ -433,6 +442,22 @@ func (sf *SpecFile) Generate() (string, error) {
 		fmt.Fprintf(&b, "\nfunc __lemma_%s%s\n", l.Name, rewriteSpecText(l.Text))
 	}
 	return b.String(), nil
+}
+
+// writeLet emits a let / oldlet binding; an oldlet is evaluated in the pre-state.
+func writeLet(b *strings.Builder, cl Clause, e string) {
+	if cl.Kind == "oldlet" {
+		fmt.Fprintf(b, "\t__oldMark()\n\t%s\n\t__oldEnd()\n", e)
+	} else {
+		fmt.Fprintf(b, "\t%s\n", e)
+	}
+	lhs := strings.SplitN(cl.Expr, ":=", 2)[0]
+	for _, v := range strings.Split(lhs, ",") {
+		v = strings.TrimSpace(v)
+		if v != "_" && v != "" {
+			fmt.Fprintf(b, "\t_ = %s\n", v)
+		}
+	}
 }
 
 func splitParams(params string) []string {
@@ -482,14 +507,14 @@ func splitTop(s string, sep byte) []string {
 
 var (
 	oldRe    = regexp.MustCompile(`\bold\(`)
-	forallRe = regexp.MustCompile(`\b(forall|forall2|forall3|exists|exists2|ite|visited|sentN|sentAt|recvN|recvAt|closed|held|rheld|fresh|mapEq|sameElems|sameArray|sameSlice|allocatedElemsKept|nilSlice|disjoint|elemsUnchangedExcept|elemsUnchangedExcept2|spawnN|spawnArg|spawnIs|logN|logAt\[[A-Za-z0-9_.*\[\]]+\])\(`)
+	forallRe = regexp.MustCompile(`\b(forall|forall2|forall3|exists|exists2|ite|visited|sentN|sentAt|recvN|recvAt|closed|held|rheld|fresh|mapEq|sameElems|sameArray|sameSlice|allocatedElemsKept|allocated|arrayAllocated|nilSlice|disjoint|elemsUnchangedExcept|elemsUnchangedExcept2|spawnN|spawnArg|spawnIs|logN|logAt\[[A-Za-z0-9_.*\[\]]+\])\(`)
 	assertRe = regexp.MustCompile(`\bassert\(`)
 )
 
 // rewriteSpecText turns spec sugar into Go: ==>, old(), forall(), ...
 func rewriteSpecText(s string) string {
 	s = rewriteImplies(s)
-	s = oldRe.ReplaceAllString(s, "__old(")
+	s = oldRe.ReplaceAllString(s, "__old(__oldMark(), ")
 	s = forallRe.ReplaceAllString(s, "__${1}(")
 	s = assertRe.ReplaceAllString(s, "__assert(")
 	return s
@@ -571,6 +596,9 @@ func rewriteGroup(inner string, open byte) string {
 			depth--
 		case ',', ';', '\n':
 			if depth == 0 {
+				if c == '\n' && continuesExpr(inner[:i]) {
+					continue // an expression continued on the next line
+				}
 				flush(i, string(c))
 				start = i + 1
 			}
